@@ -353,7 +353,7 @@ def obligations(tier):
             obs.append(ob_choi(din, dout, 3, "nested_row"))
             obs.append(ob_choi(din, dout, 2, "flat", sys=1))
     # non-square left/right pairs
-    rect = [(2, 3, 3, 2), (2, 2, 3, 2), (3, 2, 2, 2), (2, 1, 1, 2), (1, 2, 2, 3)] + ([(2, 3, 4, 2), (3, 3, 2, 4)] if T else [])
+    rect = [(2, 3, 3, 2), (2, 2, 3, 2), (3, 2, 2, 2), (2, 1, 1, 2), (1, 2, 2, 3), (2, 3, 1, 1)] + ([(2, 3, 4, 2), (3, 3, 2, 4)] if T else [])
     for din, dout, din1, dout1 in rect:
         for r in [1, 2]:
             obs.append(ob_apply(din, dout, r, "pairs", din1, dout1))
